@@ -1784,13 +1784,13 @@ def scripts_c02(tier, rng):
 
 
 PROPS.update({
-    "C04": dict(modules=['C04', 'C04Sys', 'C04Order', 'LiftRestart'], theorems=['c04_sys_callback_accounting_partial', 'c04_sys_callback_accounting_ascending', 'c04_sys_callback_accounting_no_death', 'c04_sys_callback_accounting_no_eio', 'c04_sys_at_most_once', 'c04_sys_request_order_partial', 'c04_sys_request_order', 'c04_sys_exactly_once_no_fault', 'Sys.step_acctC4S', 'Sys.run_acctC4S', 'Sys.run_splitC4S', 'c04_wf_invariant', 'c04_covered_step', 'c04_dying_step', 'c04_covered_rotate', 'c04_covered_flush', 'c04_ack_only_from_syncNew', 'c04_ack_means_synced', 'c04_negative_after_failed_sync', 'c04_step_cbs', 'c04_cbs_in_request_order', 'c04_cb_at_most_once', 'c04_exactly_once_no_fault_measure', 'c04_exactly_once_no_fault', 'c04_wf_reachable', 'c04_covered_sys', 'c04_positive_callback_means_durable', 'lift_oldSynced_spec', 'lift_crashInv_clean_restart', 'lift_oldSynced_of_single_file', 'lift_inv_spec', 'lift_inv_fresh', 'lift_inv_history', 'lift_inv_restart', 'lift_inv_recovered', 'c15_accounting_exact_after_recovery_of_crashInv', 'c15_accounting_exact_after_recovery_history_of_crashInv', 'c15_accounting_exact_after_recovery', 'c15_accounting_exact_after_recovery_history', 'c15_append_only_pinned_after_recovery', 'c08_gap_free_suffix_of_crashInv', 'c08_unlinks_oldest_first_of_crashInv', 'c08_index_entries_in_linked_chunks_of_crashInv', 'c08_unlink_only_after_purge_durable_of_crashInv', 'c08_flushed_idle_gone_of_crashInv', 'c08_clean_files_are_live_chunks_of_crashInv', 'c08_restarted_files_are_live_chunks', 'c08_recovered_files_are_live_chunks', 'lift_clean_holds_no_request', 'c04_positive_callback_means_durable_of_crashInv', 'ReachLIFT', 'lift_csys_keys', 'lift_reach_invariant', 'c11_journal_invariant_reach', 'c15_accounting_exact_reach', 'c08_flushed_idle_gone_reach', 'c04_positive_callback_means_durable_reach', 'liftUnsyncedExample', 'liftUnsyncedRestarted', 'liftUnsyncedMore', 'lift_restart_syncs_old_chunks', 'lift_c05Example_wf', 'lift_c05Example_inv', 'lift_csys_last', 'lift_c05Recovered_inv', 'liftRestarted', 'liftReachExample', 'lift_reach_c05Recovered', 'lift_reach_restarted', 'lift_reach_example', 'crashInv_clean_restart_LIFT', 'recover_cacheInv_LIFT', 'run_keys_LIFT'], gen=scripts_c04, project=proj_events, oracle=oracle_c04,
+    "C04": dict(modules=['C04', 'C04Sys', 'C04Order', 'LiftRestart', 'AnyHistory'], theorems=['c04_positive_callback_means_durable_any_history_partial', 'c03_acked_is_durable_any_history_partial', 'c04_sys_callback_accounting_partial', 'c04_sys_callback_accounting_ascending', 'c04_sys_callback_accounting_no_death', 'c04_sys_callback_accounting_no_eio', 'c04_sys_at_most_once', 'c04_sys_request_order_partial', 'c04_sys_request_order', 'c04_sys_exactly_once_no_fault', 'Sys.step_acctC4S', 'Sys.run_acctC4S', 'Sys.run_splitC4S', 'c04_wf_invariant', 'c04_covered_step', 'c04_dying_step', 'c04_covered_rotate', 'c04_covered_flush', 'c04_ack_only_from_syncNew', 'c04_ack_means_synced', 'c04_negative_after_failed_sync', 'c04_step_cbs', 'c04_cbs_in_request_order', 'c04_cb_at_most_once', 'c04_exactly_once_no_fault_measure', 'c04_exactly_once_no_fault', 'c04_wf_reachable', 'c04_covered_sys', 'c04_positive_callback_means_durable', 'lift_oldSynced_spec', 'lift_crashInv_clean_restart', 'lift_oldSynced_of_single_file', 'lift_inv_spec', 'lift_inv_fresh', 'lift_inv_history', 'lift_inv_restart', 'lift_inv_recovered', 'c15_accounting_exact_after_recovery_of_crashInv', 'c15_accounting_exact_after_recovery_history_of_crashInv', 'c15_accounting_exact_after_recovery', 'c15_accounting_exact_after_recovery_history', 'c15_append_only_pinned_after_recovery', 'c08_gap_free_suffix_of_crashInv', 'c08_unlinks_oldest_first_of_crashInv', 'c08_index_entries_in_linked_chunks_of_crashInv', 'c08_unlink_only_after_purge_durable_of_crashInv', 'c08_flushed_idle_gone_of_crashInv', 'c08_clean_files_are_live_chunks_of_crashInv', 'c08_restarted_files_are_live_chunks', 'c08_recovered_files_are_live_chunks', 'lift_clean_holds_no_request', 'c04_positive_callback_means_durable_of_crashInv', 'ReachLIFT', 'lift_csys_keys', 'lift_reach_invariant', 'c11_journal_invariant_reach', 'c15_accounting_exact_reach', 'c08_flushed_idle_gone_reach', 'c04_positive_callback_means_durable_reach', 'liftUnsyncedExample', 'liftUnsyncedRestarted', 'liftUnsyncedMore', 'lift_restart_syncs_old_chunks', 'lift_c05Example_wf', 'lift_c05Example_inv', 'lift_csys_last', 'lift_c05Recovered_inv', 'liftRestarted', 'liftReachExample', 'lift_reach_c05Recovered', 'lift_reach_restarted', 'lift_reach_example', 'crashInv_clean_restart_LIFT', 'recover_cacheInv_LIFT', 'run_keys_LIFT'], gen=scripts_c04, project=proj_events, oracle=oracle_c04,
                 explanation="flush acknowledgement soundness", assumptions=OS_ASSUMPTIONS),
-    "C08": dict(modules=['C08', 'C08Sys', 'LiftRestart'], theorems=['c08_unlink_only_after_good_sync', 'c08_removal_starts_only_after_good_sync', 'c08_lastSyncFailed', 'c08_unlink_in_list_order', 'c08_postponed_in_request_order', 'c08_popObsolete_prefix', 'c08_abut_spec', 'c08_remaining_files_gap_free_suffix', 'c08_unlinks_oldest_first', 'c08_index_entries_in_linked_chunks', 'c08_unlink_only_after_purge_durable', 'c08_no_failed_sync_clean', 'c08_postponed_only_after_failed_sync', 'c08_flushed_idle_gone_always', 'c08_flushed_idle_gone', 'lift_oldSynced_spec', 'lift_crashInv_clean_restart', 'lift_oldSynced_of_single_file', 'lift_inv_spec', 'lift_inv_fresh', 'lift_inv_history', 'lift_inv_restart', 'lift_inv_recovered', 'c15_accounting_exact_after_recovery_of_crashInv', 'c15_accounting_exact_after_recovery_history_of_crashInv', 'c15_accounting_exact_after_recovery', 'c15_accounting_exact_after_recovery_history', 'c15_append_only_pinned_after_recovery', 'c08_gap_free_suffix_of_crashInv', 'c08_unlinks_oldest_first_of_crashInv', 'c08_index_entries_in_linked_chunks_of_crashInv', 'c08_unlink_only_after_purge_durable_of_crashInv', 'c08_flushed_idle_gone_of_crashInv', 'c08_clean_files_are_live_chunks_of_crashInv', 'c08_restarted_files_are_live_chunks', 'c08_recovered_files_are_live_chunks', 'lift_clean_holds_no_request', 'c04_positive_callback_means_durable_of_crashInv', 'ReachLIFT', 'lift_csys_keys', 'lift_reach_invariant', 'c11_journal_invariant_reach', 'c15_accounting_exact_reach', 'c08_flushed_idle_gone_reach', 'c04_positive_callback_means_durable_reach', 'liftUnsyncedExample', 'liftUnsyncedRestarted', 'liftUnsyncedMore', 'lift_restart_syncs_old_chunks', 'lift_c05Example_wf', 'lift_c05Example_inv', 'lift_csys_last', 'lift_c05Recovered_inv', 'liftRestarted', 'liftReachExample', 'lift_reach_c05Recovered', 'lift_reach_restarted', 'lift_reach_example', 'crashInv_clean_restart_LIFT', 'recover_cacheInv_LIFT', 'run_keys_LIFT'], gen=scripts_c08, project=proj_c08, oracle=oracle_c08,
+    "C08": dict(modules=['C08', 'C08Sys', 'LiftRestart', 'AnyHistory'], theorems=['c08_remaining_files_gap_free_suffix_any_history_partial', 'c08_flushed_idle_gone_always_any_history_partial', 'c08_unlink_only_after_good_sync', 'c08_removal_starts_only_after_good_sync', 'c08_lastSyncFailed', 'c08_unlink_in_list_order', 'c08_postponed_in_request_order', 'c08_popObsolete_prefix', 'c08_abut_spec', 'c08_remaining_files_gap_free_suffix', 'c08_unlinks_oldest_first', 'c08_index_entries_in_linked_chunks', 'c08_unlink_only_after_purge_durable', 'c08_no_failed_sync_clean', 'c08_postponed_only_after_failed_sync', 'c08_flushed_idle_gone_always', 'c08_flushed_idle_gone', 'lift_oldSynced_spec', 'lift_crashInv_clean_restart', 'lift_oldSynced_of_single_file', 'lift_inv_spec', 'lift_inv_fresh', 'lift_inv_history', 'lift_inv_restart', 'lift_inv_recovered', 'c15_accounting_exact_after_recovery_of_crashInv', 'c15_accounting_exact_after_recovery_history_of_crashInv', 'c15_accounting_exact_after_recovery', 'c15_accounting_exact_after_recovery_history', 'c15_append_only_pinned_after_recovery', 'c08_gap_free_suffix_of_crashInv', 'c08_unlinks_oldest_first_of_crashInv', 'c08_index_entries_in_linked_chunks_of_crashInv', 'c08_unlink_only_after_purge_durable_of_crashInv', 'c08_flushed_idle_gone_of_crashInv', 'c08_clean_files_are_live_chunks_of_crashInv', 'c08_restarted_files_are_live_chunks', 'c08_recovered_files_are_live_chunks', 'lift_clean_holds_no_request', 'c04_positive_callback_means_durable_of_crashInv', 'ReachLIFT', 'lift_csys_keys', 'lift_reach_invariant', 'c11_journal_invariant_reach', 'c15_accounting_exact_reach', 'c08_flushed_idle_gone_reach', 'c04_positive_callback_means_durable_reach', 'liftUnsyncedExample', 'liftUnsyncedRestarted', 'liftUnsyncedMore', 'lift_restart_syncs_old_chunks', 'lift_c05Example_wf', 'lift_c05Example_inv', 'lift_csys_last', 'lift_c05Recovered_inv', 'liftRestarted', 'liftReachExample', 'lift_reach_c05Recovered', 'lift_reach_restarted', 'lift_reach_example', 'crashInv_clean_restart_LIFT', 'recover_cacheInv_LIFT', 'run_keys_LIFT'], gen=scripts_c08, project=proj_c08, oracle=oracle_c08,
                 explanation="chunk deletion", assumptions=OS_ASSUMPTIONS),
-    "C14": dict(modules=['C14', 'C14Busy'], theorems=['c14_worker_terminates_measure', 'c14_fuel_bound', 'c14_fuel_sufficient', 'c14_todoOK_reachable', 'c14_todoOK_invariant', 'c14_worker_terminates', 'c14_worker_terminates_any', 'c14_drop_state', 'c14_after_drop_nothing_moves', 'c14_drop_quiesces', 'c14_drop_none', 'c14_drop_quiesces_reachable', 'c14_drop_quiesces_system', 'c14_busy_drop_eq_idle_drop', 'c14_busy_drop_events', 'c14_busy_senderAlive', 'c14_busy_nothing_postponed', 'c14_busy_nothing_postponed_sync', 'c14_busy_postponed_invariant', 'c14_busy_restart_step', 'c14_busy_open_fs_unchanged_if_durable', 'c14_busy_drop_then_open_idle', 'c14_busy_drop_then_open', 'c14_after_busy_drop_nothing_changes', 'c14_busy_refinement_continues', 'c14_busy_history_after_restart', 'c14_busy_failed_sync_needed'], gen=scripts_c14, project=proj_events, oracle=oracle_c14,
+    "C14": dict(modules=['C14', 'C14Busy', 'AnyHistory'], theorems=['c14_busy_drop_then_open_any_history_partial', 'c14_worker_terminates_measure', 'c14_fuel_bound', 'c14_fuel_sufficient', 'c14_todoOK_reachable', 'c14_todoOK_invariant', 'c14_worker_terminates', 'c14_worker_terminates_any', 'c14_drop_state', 'c14_after_drop_nothing_moves', 'c14_drop_quiesces', 'c14_drop_none', 'c14_drop_quiesces_reachable', 'c14_drop_quiesces_system', 'c14_busy_drop_eq_idle_drop', 'c14_busy_drop_events', 'c14_busy_senderAlive', 'c14_busy_nothing_postponed', 'c14_busy_nothing_postponed_sync', 'c14_busy_postponed_invariant', 'c14_busy_restart_step', 'c14_busy_open_fs_unchanged_if_durable', 'c14_busy_drop_then_open_idle', 'c14_busy_drop_then_open', 'c14_after_busy_drop_nothing_changes', 'c14_busy_refinement_continues', 'c14_busy_history_after_restart', 'c14_busy_failed_sync_needed'], gen=scripts_c14, project=proj_events, oracle=oracle_c14,
                 explanation="drop quiesces", assumptions=OS_ASSUMPTIONS),
-    "C07": dict(modules=["C07", "C07Trunc", "C07Restart"], theorems=['c07_refines_noCache', 'c07_refinesNoCache_step', 'c07_readInv_spec', 'c07_resident_or_on_disk', 'c07_boundary_written', 'c07_read_of_inv', 'c07_inv_fresh', 'c07_inv_call', 'c07_inv_flush', 'c07_inv_worker', 'c07_inv_workerIdle', 'c07_inv_drain', 'c07_inv_reachable', 'c07_reads_partial', 'c07_worker_steps_invisible', 'c07_cache_limits_invisible', 'c07t_appendsFresh_iff', 'c07t_readInv_spec', 'c07t_inv_fresh', 'c07t_inv_call', 'c07t_inv_truncate', 'c07t_inv_flush', 'c07t_inv_worker', 'c07t_inv_workerIdle', 'c07t_inv_drain', 'c07t_read_of_inv', 'c07t_resident_or_on_disk', 'c07t_inv_reachable', 'c07_reads_with_truncate', 'c07t_appendsFresh_of_noTruncate', 'c07_reads_partial_of_with_truncate', 'c07t_worker_steps_invisible', 'c07t_cache_limits_invisible', 'c07r_readInv_spec', 'c07r_inv_fresh', 'c07r_inv_call', 'c07r_inv_flush', 'c07r_inv_worker', 'c07r_inv_workerIdle', 'c07r_inv_drain', 'c07r_inv_history', 'c07r_read_of_inv', 'c07_clean_restart_keeps_read_invariant', 'c07_clean_restart_reads', 'c07r_after_restart_resident_or_on_disk', 'c07r_appendsFresh_cycles', 'c07r_inv_cycles', 'c07_reads_across_restarts', 'c07_reads_with_truncate_of_across_restarts', 'c07r_reopen_cfgs_invisible', 'c07r_crashReadInv_spec', 'c07r_crashReadInv_fresh', 'c07r_crashReadInv_history', 'c07_crash_recovery_keeps_read_invariant', 'c07_reads_after_crash_recovery', 'c07_reads_after_recovery_continue', 'c07_reads_across_restarts_from'], gen=scripts_c07, project=proj_c07, oracle=oracle_c07,
+    "C07": dict(modules=["C07", "C07Trunc", "C07Restart", "AnyHistory"], theorems=['c07_reads_with_truncate_any_history_partial', 'c07_reads_with_truncate_any_history_fresh_partial', 'c07_refines_noCache', 'c07_refinesNoCache_step', 'c07_readInv_spec', 'c07_resident_or_on_disk', 'c07_boundary_written', 'c07_read_of_inv', 'c07_inv_fresh', 'c07_inv_call', 'c07_inv_flush', 'c07_inv_worker', 'c07_inv_workerIdle', 'c07_inv_drain', 'c07_inv_reachable', 'c07_reads_partial', 'c07_worker_steps_invisible', 'c07_cache_limits_invisible', 'c07t_appendsFresh_iff', 'c07t_readInv_spec', 'c07t_inv_fresh', 'c07t_inv_call', 'c07t_inv_truncate', 'c07t_inv_flush', 'c07t_inv_worker', 'c07t_inv_workerIdle', 'c07t_inv_drain', 'c07t_read_of_inv', 'c07t_resident_or_on_disk', 'c07t_inv_reachable', 'c07_reads_with_truncate', 'c07t_appendsFresh_of_noTruncate', 'c07_reads_partial_of_with_truncate', 'c07t_worker_steps_invisible', 'c07t_cache_limits_invisible', 'c07r_readInv_spec', 'c07r_inv_fresh', 'c07r_inv_call', 'c07r_inv_flush', 'c07r_inv_worker', 'c07r_inv_workerIdle', 'c07r_inv_drain', 'c07r_inv_history', 'c07r_read_of_inv', 'c07_clean_restart_keeps_read_invariant', 'c07_clean_restart_reads', 'c07r_after_restart_resident_or_on_disk', 'c07r_appendsFresh_cycles', 'c07r_inv_cycles', 'c07_reads_across_restarts', 'c07_reads_with_truncate_of_across_restarts', 'c07r_reopen_cfgs_invisible', 'c07r_crashReadInv_spec', 'c07r_crashReadInv_fresh', 'c07r_crashReadInv_history', 'c07_crash_recovery_keeps_read_invariant', 'c07_reads_after_crash_recovery', 'c07_reads_after_recovery_continue', 'c07_reads_across_restarts_from'], gen=scripts_c07, project=proj_c07, oracle=oracle_c07,
                 explanation="reads independent of cache/worker", assumptions=OS_ASSUMPTIONS),
     "C02": dict(theorems=['c02_smApply_cache_free', 'c02_smApply_independent_of_cache', 'c02_replay_spec', 'c02_replay_fresh', 'c02_replay_call', 'c02_replay_flush', 'c02_replay_worker', 'c02_replay_workerIdle', 'c02_replay_drain', 'c02_replay_invariant', 'c02_linked_files', 'c02_syncAll_durable', 'c02_syncEvs_only', 'c02_restart_step', 'c02_clean_restart', 'c02_refinement_continues', 'c02_history_after_restart', 'c02_removed_needed', 'c02_cycles', 'c02_restart_refines', 'c02_cycles_refines'], gen=scripts_c02, project=proj_c02, oracle=oracle_c02,
                 explanation="clean restart equivalence", assumptions=OS_ASSUMPTIONS),
